@@ -98,11 +98,11 @@ class MoveDataMixin:
         ]
 
         def parse3(
-            other: torch.Tensor,
+            tensor: torch.Tensor,
             non_blocking: bool = False,
             copy: bool = False,
         ) -> parsedType:
-            return other.device, other.dtype, non_blocking, copy, torch.preserve_format
+            return tensor.device, tensor.dtype, non_blocking, copy, torch.preserve_format
 
         def parse2(
             dtype: torch.dtype,
